@@ -3,9 +3,14 @@ import vlib
 
 def run(ctx):
     vlib.case_component(ctx, "Escape", "Escape", "Escape", ["MC_thorough.cfg"], "c07", tlc_timeout=3000)
+    # the parsers' cursor machines, step by step: TLC checks cursor order, progress, termination and refinement of the
+    # declarative Parse on every input of the grammar, and prints the output for every input; the real parsers must agree
+    t = "quick" if ctx.tier == "quick" else "thorough"
+    vlib.case_component(ctx, "ScanParse", "Escape", "ScanParse", ["MC_scan_%s_%s.cfg" % (k, t) for k in ("octal", "hex", "U", "u")], "c07",
+                        tlc_timeout=3000, workers=8)
     ctx.assumptions += ["inputs are sequences of <= 3 tokens: backslash-free text, well-formed escapes of boundary values in both hex-digit cases, every truncation of an escape, wrong digits, out-of-range values, lone / reversed / unpaired surrogates",
                         "exact outputs are required when no malformed fragment is present (and for Format and the round trip); otherwise: no panic, at most len(input) bytes, ToString forms agree, input not modified",
-                        "the cursor machines of the parsers are not transcribed into TLA+; the token grammar and the denotation of escapes are"]
+                        "ScanParse.tla transcribes the parsers' cursor machines (one action per loop iteration); its predictions are exact for every input, but only disagreements on well-formed input are violations (on malformed input: model drift)"]
 
 def replay(ctx, rp):
     vlib.log("replay: the file holds the concrete input; re-run ./check C07")
